@@ -5,3 +5,20 @@ register("T00",  # infrastructure self-test, not a property of properties.jsonl
 
 for _p in ("C01", "C02", "C03", "C08", "C10"):
     register(_p, lean_modules=[], theorems=[], streams=["script"])
+
+register("C20", lean_modules=["GtModel.Props.C20"], gen=lambda: __import__("harness.gentables", fromlist=["x"]).gen_cli_tables(),
+         streams=["faults"],
+         theorems=["GtModel.C20.handlers_cover", "GtModel.C20.invalid_yields_message", "GtModel.C20.error_path_first", "GtModel.C20.error_path_second"],
+         partial="the set of exception classes each external parser raises on invalid syntax is an assumption validated by fault enumeration; message formatting is not modelled",
+         assumptions=["RAISABLE table in harness/gentables.py (validated by the faults stream on every run)"],
+         trusted=["except-clause table and exception MROs regenerated from /repo by harness/gentables.py"])
+
+from .. import gentables as _gt
+
+register("C14", lean_modules=["GtModel.Props.C14"], gen=_gt.gen_cli_tables, streams=["cli"],
+         theorems=["GtModel.C14.alias_from_type", "GtModel.C14.explicit_mime_wins", "GtModel.C14.explicit_type_wins",
+                   "GtModel.C14.second_file_ignores_first_file_options", "GtModel.C14.alias_k", "GtModel.C14.alias_j",
+                   "GtModel.C14.default_is_auto", "GtModel.C14.by_mime_of_default"],
+         partial="argparse's parsing of argv and the byte-level agreement with the library are checked by the cli stream on the real code, not proved",
+         assumptions=["mimetypes.guess_type is an oracle (its answer for each file name is recorded and shipped to the model)"],
+         trusted=["file-type tables regenerated from /repo by harness/gentables.py"])
